@@ -235,7 +235,8 @@ def live_handler_step(c, kind, n=1, allow_meanwhile=True, allow_errors=True, all
     symbolic outcome per instruction, a symbolic failing attempt, and (symbolically) the order stream completing some
     order before the response is delivered.  Returns the world for the obligation sets."""
     ex = ExchangeDouble()
-    fl, client, (strategy,) = cm.new_live(exchange=ex)
+    # (what is counted does not depend on whether the client has a limit configured)
+    fl, client, (strategy,) = cm.new_live(exchange=ex, client_kwargs=dict(transaction_limit=c.choose("transaction_limit", [5000, None])))
     bk = cm.book([cm.runner(1), cm.runner(2)], version=7)
     market = fl._add_market(cm.MID, bk)
     name = {OrderPackageType.PLACE: "place", OrderPackageType.CANCEL: "cancel", OrderPackageType.UPDATE: "update", OrderPackageType.REPLACE: "replace"}[kind]
